@@ -9,11 +9,12 @@ CASE_TIMEOUT = 60
 from pomdpgen import gen_pomdp, fmt_pomdp, gen_beliefs, L, Qs
 
 def gen(rng, tier):
-    n = {"quick": 60, "thorough": 300, "search": 150}[tier]
+    n = {"quick": 160, "thorough": 700, "search": 300}[tier]
+    from fractions import Fraction as F
     out = []
     for k in range(n):
         S = rng.choice([2, 2, 3, 3]); A = rng.choice([1, 2, 2, 3]); O = rng.choice([1, 2, 2, 3, 4])
-        m = gen_pomdp(rng, S, A, O)
+        m = gen_pomdp(rng, S, A, O, gammas=(F(1, 2), F(3, 4), F(3, 4), F(1)))
         if rng.random() < 0.25:     # all rewards strictly negative (a negative valid bound maxR)
             top = max(max(row) for row in m["R"])
             m["R"] = [[x - top - 1 for x in row] for row in m["R"]]
@@ -27,7 +28,7 @@ def gen(rng, tier):
             maxR = rng.choice([maxr, maxr + 1, maxr + rng.choice([0, 2, 5])])
             out.append("rtbss %s %d %s %s %s" % (rng.choice(["dense", "sparse"]), min(h + 1, 4), Qs([maxR]), fmt_pomdp(m), L(Qs(b).split())))
         else:
-            alg = rng.choice(["ip", "ip", "wit", "ls"])
+            alg = rng.choice(["ip", "ip", "wit", "wit", "wit", "ls"])
             bs = gen_beliefs(rng, S, 6)
             out.append("solve %s %s %d %s %d %s" % (alg, rng.choice(["dense", "dense", "sparse"]), h, fmt_pomdp(m), len(bs), " ".join(Qs(b) for b in bs)))
     return out
